@@ -5,8 +5,8 @@
        r = [route, style, cred, acts, anon, bucket]
    route  one of the 23 routes registered by weed/s3api/s3api_server.go
    style  how the request authenticates: V2H/V2P/V4H/V4P (header / presigned),
-          V4S (streaming seed signature + chunk signatures), POSTPOL (browser form
-          with a signed policy), or unsigned: ANON (nothing), USTREAM (no signature
+          V4S (streaming seed signature + chunk signatures), POSTPOL / POSTPOL2 (browser
+          form with a policy signed the V4 / the V2 way), or unsigned: ANON (nothing), USTREAM (no signature
           but x-amz-content-sha256: STREAMING-AWS4-HMAC-SHA256-PAYLOAD), UFORM (no
           signature but Content-Type: multipart/form-data), BEARER (Authorization:
           Bearer x)
@@ -30,8 +30,19 @@
    classification in s3api_auth.go, the Auth wrapper, the per-handler checks), with
    the two known deviations as named predicates; GwSound is model-checked.
 
+   Streaming uploads ("sreq", style V4S on PutObject / PutObjectPart with an explicit
+   chunk list): the request may reach the filer only with a valid, permitted seed
+   signature, and it may take effect (namespace change, object present) only if every
+   chunk signature and the final zero-length chunk's signature verify; the object then
+   stored is exactly the body that was sent (SReqOK). Layer B: S3AuthStreamImpl.tla.
+
    IAM part: GetActions(policy) never grants a (action, bucket) pair that no Allow
-   statement names. *)
+   statement names. Stateful IAM part ("iamop" / "ireq"): named[u] = the pairs named by
+   the Allow statements of every document put for user u (since u was last deleted),
+   live = the access keys created and not deleted; after every IAM API call the action
+   list of every stored identity grants no more than named (IdsOK), and a request signed
+   with an IAM-made key reaches the filer only if the key is live and named[u] permits
+   the route on the bucket (IReqOK). Layer B: S3AuthIamImpl.tla. *)
 EXTENDS Integers, Sequences, FiniteSets, TLC, Json
 CONSTANTS ActSets,     \* function: name -> set of [a |-> action, b |-> bucket or ""]
           ActNames,    \* names used for signing identities
@@ -39,8 +50,10 @@ CONSTANTS ActSets,     \* function: name -> set of [a |-> action, b |-> bucket o
           PolActs, PolRes,  \* IAM generator alphabets (tokens)
           KFM,         \* known-finding ids admitted when model-checking GwSound
           MaxOps
-VARIABLES hist
-vars == <<hist>>
+VARIABLES hist,
+          named,       \* IAM: user -> policy name -> set of <<action, bucket>> pairs named by the document put under that name
+          live         \* IAM: set of <<user, key token>>: access keys created and not deleted
+vars == <<hist, named, live>>
 
 (* b1x: a bucket whose name has b1 as a proper prefix - a bucket-limited action for b1 says nothing about it *)
 Buckets == {"b1", "b1x", "b2", "b3"}
@@ -82,7 +95,8 @@ CanDo(S, action, bucket) ==
   \/ bucket # "" /\ ([a |-> action, b |-> "b*"] \in S \/ [a |-> "Admin", b |-> "b*"] \in S)
 Permits(S, rt, bucket) == \E a \in Need(rt) : CanDo(S, a, bucket)
 
-Signed == {"V2H", "V2P", "V4H", "V4P", "V4S", "POSTPOL"}
+Signed == {"V2H", "V2P", "V4H", "V4P", "V4S", "POSTPOL", "POSTPOL2"}
+Forms == {"POSTPOL", "POSTPOL2"}
 Unsigned == {"ANON", "USTREAM", "UFORM", "BEARER"}
 Styles == Signed \cup Unsigned
 Creds == {"valid", "wrongsecret", "unknownkey", "tampered", "expired", "na"}
@@ -102,12 +116,12 @@ Reached(e) == e.changed \/ \E i \in 1..Len(e.touched) : e.touched[i].st # 301
    no Authorization / presign parameters) pass the Auth wrapper unchecked; only the
    PostPolicy handler verifies anything. Bucket-level POSTs of that type are routed to
    the PostPolicy handler, so the bypass is real on the two object-level POST routes. *)
-FormTyped(r) == Method(r.route) = "POST" /\ r.style \in {"UFORM", "POSTPOL"}
+FormTyped(r) == Method(r.route) = "POST" /\ r.style \in {"UFORM"} \cup Forms
 DevFormBypass(r) == FormTyped(r) /\ r.route \in {"CompleteMultipartUpload", "NewMultipartUpload"}
 (* a POST-policy upload is executed for every identity whose policy signature is valid:
    the handler never asks whether that identity may write to the bucket *)
 DevPostPolicyNoAuthz(r) ==
-  r.style = "POSTPOL" /\ r.cred = "valid" /\ r.route \in {"PostPolicy", "DeleteMultipleObjects"}
+  r.style \in Forms /\ r.cred = "valid" /\ r.route \in {"PostPolicy", "DeleteMultipleObjects"}
 
 (* ---------------- layer B: the gateway's decision procedure ---------------- *)
 GwType(r) ==
@@ -117,7 +131,7 @@ GwType(r) ==
     [] r.style \in {"V4H", "V4S"} -> "Signed"
     [] r.style = "V4P" -> "Presigned"
     [] r.style = "BEARER" -> "JWT"
-    [] r.style \in {"POSTPOL", "UFORM"} /\ Method(r.route) = "POST" -> "PostPolicy"
+    [] r.style \in Forms \cup {"UFORM"} /\ Method(r.route) = "POST" -> "PostPolicy"
     [] r.style = "ANON" /\ r.route = "PostPolicy" -> "PostPolicy"   \* that route only matches form uploads
     [] OTHER -> "Anonymous"
 CodeAction(rt) ==   \* registerRouter
@@ -151,11 +165,18 @@ GwReaches(r) == GwAuthPass(r) /\ GwHandlerPass(r)
 (* ---------------- generator ---------------- *)
 Applicable(rt, st, cr) ==
   /\ st = "V4S" => Method(rt) = "PUT"
-  /\ st = "POSTPOL" => Method(rt) = "POST"
+  /\ st \in Forms => Method(rt) = "POST"
   /\ st \in Unsigned <=> cr = "na"
-  /\ cr = "expired" => st \in {"V2P", "V4P", "POSTPOL"}
-Init == hist = <<>>
+  /\ cr = "expired" => st \in {"V2P", "V4P"} \cup Forms
+IamUsers == {"u1", "u2", "zsync", "admin"}
+AllPairs == AllActs \X Buckets
+PNames == {"p1", "p2"}
+NamedInit == [u \in IamUsers |-> [p \in PNames |-> IF u = "admin" THEN AllPairs ELSE {}]]
+NamedOf(nm, u) == IF u \in DOMAIN nm THEN UNION {nm[u][p] : p \in PNames} ELSE {}
+LiveInit == {<<"admin", "base">>}
+Init == hist = <<>> /\ named = NamedInit /\ live = LiveInit
 GenReq ==
+  /\ UNCHANGED <<named, live>>
   /\ Len(hist) < MaxOps
   /\ \E rt \in Routes, st \in Styles, cr \in Creds, ac \in ActNames, an \in AnonNames : \E bk \in TargetBuckets(rt) :
        /\ Applicable(rt, st, cr)
@@ -184,27 +205,85 @@ CodeAtLeastNeed == \A rt \in Routes, S \in {ActSets[n] : n \in ActNames}, b \in 
 Emit == Len(hist) < MaxOps \/ PrintT(<<"W", ToJson(hist)>>)
 
 (* ---------------- IAM policy documents ---------------- *)
+(* What a token of a policy document NAMES (upper bounds, read the AWS way: action names are
+   case-insensitive, a bare "*" is every action / every resource, a bucket ARN without "/*" still
+   names that bucket). A token of another service, a single operation, an unknown operation or a
+   string that is no S3 ARN names nothing. Every token of the generator alphabets is listed here. *)
 ActClass(tok) ==
-  CASE tok = "s3:Get*" -> {"Read"}
+  CASE tok \in {"s3:Get*", "s3:get*"} -> {"Read"}
     [] tok = "s3:Put*" -> {"Write"}
     [] tok = "s3:List*" -> {"List"}
     [] tok = "s3:Tagging*" -> {"Tagging"}
-    [] tok = "s3:*" -> AllActs
-    [] OTHER -> {}     \* a single operation (s3:DeleteObject, s3:GetObject) names no whole action class
+    [] tok \in {"s3:*", "*"} -> AllActs
+    [] OTHER -> {}     \* s3:DeleteObject (a single operation names no whole action class), s3:Bogus*, iam:Get*
 ResBuckets(tok) ==
-  CASE tok = "arn:aws:s3:::*" -> Buckets
-    [] tok = "arn:aws:s3:::b1/*" -> {"b1"}
-    [] tok = "arn:aws:s3:::b2/*" -> {"b2"}
-    [] tok = "arn:aws:s3:::b2" -> {"b2"}
-    [] OTHER -> {}
+  CASE tok \in {"arn:aws:s3:::*", "arn:aws:s3:::*/*", "*"} -> Buckets
+    [] tok \in {"arn:aws:s3:::b1/*", "arn:aws:s3:::b1", "arn:aws:s3:::b1/x/*"} -> {"b1"}
+    [] tok \in {"arn:aws:s3:::b2/*", "arn:aws:s3:::b2"} -> {"b2"}
+    [] tok = "arn:aws:s3:::b1*/*" -> {"b1", "b1x"}
+    [] OTHER -> {}     \* arn:aws:iam:::b1/*, b1/* (no ARN), arn:aws:s3:::/* (empty bucket name)
 Range(s) == {s[i] : i \in 1..Len(s)}
 Named(stmts) == UNION {ActClass(a) \X ResBuckets(rs) :
                         <<a, rs>> \in UNION {Range(st.acts) \X Range(st.res) : st \in {x \in Range(stmts) : x.eff = "Allow"}}}
-(* what an identity holding the action strings `out` may do (Identity.canDo) *)
+(* what an identity holding the action strings `out` may do (Identity.canDo). An action string is
+   recorded as [a, b, g]: "Read" = [a: Read, b: "", g: TRUE] (global), "Read:b1" = [a: Read, b: b1,
+   g: FALSE]; a bucket part ending in "*" is a prefix pattern; "Read:" (empty bucket part) matches
+   no bucket. *)
+BucketsOf(pat) ==
+  CASE pat \in Buckets -> {pat}
+    [] pat \in {"*", "b*"} -> Buckets
+    [] pat = "b1*" -> {"b1", "b1x"}
+    [] OTHER -> {}
 GrantOf(o) == (IF o.a = "Admin" THEN AllActs ELSE IF o.a \in AllActs THEN {o.a} ELSE {})
-              \X (IF o.b \in {"", "*"} THEN Buckets ELSE IF o.b \in Buckets THEN {o.b} ELSE {})
+              \X (IF o.g THEN Buckets ELSE BucketsOf(o.b))
 Grants(out) == UNION {GrantOf(o) : o \in Range(out)}
 PolicyOK(stmts, out) == Grants(out) \subseteq Named(stmts)
+
+(* ---------------- IAM API: users, policies, access keys (layer A) ---------------- *)
+(* e = [op, user, pname, key, stmts]. named[u][p] = what the Allow statements of the document put for
+   user u under policy name p name. Putting a document under a name REPLACES the document of that name
+   (PutUserPolicy "adds or updates an inline policy document"); deleting the policy or the user forgets
+   it. Everything else (CreateUser, CreatePolicy, the read-only calls) names nothing new. Whether a call
+   succeeded is not asked: a refused call may only grant less.
+   acc = TRUE is the named deviation C26-putuserpolicy-accumulates: the gateway's identities keep what
+   an earlier document of the same name gave. *)
+PutAccumulates(e) == e.op = "PutUserPolicy" /\ ~(named[e.user][e.pname] \subseteq Named(e.stmts))
+IamOp(e, acc) ==
+  CASE e.op = "PutUserPolicy" ->
+         named' = [named EXCEPT ![e.user][e.pname] = (IF acc THEN @ ELSE {}) \cup Named(e.stmts)] /\ UNCHANGED live
+    [] e.op = "DeleteUserPolicy" ->
+         named' = [named EXCEPT ![e.user][e.pname] = {}] /\ UNCHANGED live
+    [] e.op = "DeleteUser" ->
+         named' = [named EXCEPT ![e.user] = [p \in PNames |-> {}]] /\ live' = {k \in live : k[1] # e.user}
+    [] e.op = "CreateAccessKey" -> live' = live \cup {<<e.user, e.key>>} /\ UNCHANGED named
+    [] e.op = "DeleteAccessKey" -> live' = live \ {<<e.user, e.key>>} /\ UNCHANGED named
+    [] OTHER -> UNCHANGED <<named, live>>
+(* the stored identities after the call: ids = <<[name, acts, nkeys]>> *)
+IdsOKIn(ids, nm) == \A i \in 1..Len(ids) : Grants(ids[i].acts) \subseteq NamedOf(nm, ids[i].name)
+(* a real request signed (V4 header) with the IAM-made key `key` of `user` *)
+AsActs(P) == {[a |-> p[1], b |-> p[2]] : p \in P}
+IReqOK(e) == Reached(e) => (<<e.user, e.key>> \in live /\ Permits(AsActs(NamedOf(named, e.user)), e.route, e.bucket))
+
+(* ---------------- streaming-signed uploads (layer A) ---------------- *)
+(* e.chunks = <<[n |-> bytes, k |-> kind]>>: ok | baddata (a byte changed after signing) | badsig (signature
+   altered) | nosig (no chunk-signature extension) | unchained (signed, but not chained to its predecessor).
+   e.fin, the final zero-length chunk: ok | badsig | nosig | absent | cut (the body breaks off inside
+   the last data chunk, no final chunk). e.decl: x-amz-decoded-content-length = exact | less | more
+   than the bytes sent - the statement does not say what a wrong declaration must lead to.
+   Chunk i is filled with the i-th capital letter; the driver reports the object found afterwards
+   run-length encoded (stored = <<[c, n]>>). *)
+Letters == <<"A", "B", "C", "D">>
+SKinds == {"ok", "baddata", "badsig", "nosig", "unchained"}
+SFins == {"ok", "badsig", "nosig", "absent", "cut"}
+SDecls == {"exact", "less", "more"}
+SCreds == {"valid", "wrongsecret", "unknownkey", "tampered"}
+AllowedS(e) == e.cred = "valid" /\ Permits(ActSets[e.acts], e.route, e.bucket)
+StreamValid(e) == e.fin = "ok" /\ \A i \in 1..Len(e.chunks) : e.chunks[i].k = "ok"
+SentBody(e) == [i \in 1..Len(e.chunks) |-> [c |-> Letters[i], n |-> e.chunks[i].n]]
+SReqOK(e) ==
+  /\ Reached(e) => AllowedS(e)
+  /\ e.changed => (AllowedS(e) /\ StreamValid(e))
+  /\ e.present => (AllowedS(e) /\ StreamValid(e) /\ e.stored = SentBody(e))
 
 RECURSIVE SetToSeq(_)
 SetToSeq(S) == IF S = {} THEN <<>> ELSE LET x == CHOOSE y \in S : TRUE IN <<x>> \o SetToSeq(S \ {x})
@@ -214,6 +293,7 @@ Stmts1 == {[eff |-> e, acts |-> <<a>>, res |-> <<rs>>] : e \in {"Allow", "Deny"}
 (* documents of one statement (1-2 actions x 1-2 resources) and of two single-action, single-resource
    statements; the check adds seeded pairs of full statements *)
 GenPol ==
+  /\ UNCHANGED <<named, live>>
   /\ hist = <<>>
   /\ \/ \E s \in Stmts : hist' = <<[ev |-> "pol", stmts |-> <<s>>]>>
      \/ MaxOps >= 2 /\ \E s \in Stmts1, t \in Stmts1 : hist' = <<[ev |-> "pol", stmts |-> <<s, t>>]>>
@@ -222,7 +302,7 @@ PolSpec == Init /\ [][GenPol]_vars
 RefOut(stmts) ==
   LET pairs == UNION {Range(st.acts) \X Range(st.res) : st \in {x \in Range(stmts) : x.eff = "Allow"}}
       good == {p \in pairs : Cardinality(ActClass(p[1])) = 1 /\ Cardinality(ResBuckets(p[2])) = 1}
-  IN SetToSeq({[a |-> CHOOSE x \in ActClass(p[1]) : TRUE, b |-> CHOOSE x \in ResBuckets(p[2]) : TRUE] : p \in good})
+  IN SetToSeq({[a |-> CHOOSE x \in ActClass(p[1]) : TRUE, b |-> CHOOSE x \in ResBuckets(p[2]) : TRUE, g |-> FALSE] : p \in good})
 RefPolicyOK == \A i \in 1..Len(hist) : PolicyOK(hist[i].stmts, RefOut(hist[i].stmts))
 DenyNamesNothing == \A i \in 1..Len(hist) :
                       (\A j \in 1..Len(hist[i].stmts) : hist[i].stmts[j].eff = "Deny") => Named(hist[i].stmts) = {}
